@@ -58,7 +58,7 @@ func typedApp(repo string) (*typedPkg, error) {
 		t.files = append(t.files, p.Files[n])
 	}
 	conf := types.Config{Importer: importer.ForCompiler(fset, "source", nil), Error: func(err error) { t.terrs = append(t.terrs, err.Error()) }}
-	t.info = &types.Info{Types: map[ast.Expr]types.TypeAndValue{}}
+	t.info = &types.Info{Types: map[ast.Expr]types.TypeAndValue{}, Uses: map[*ast.Ident]types.Object{}, Defs: map[*ast.Ident]types.Object{}, Selections: map[*ast.SelectorExpr]*types.Selection{}}
 	t.pkg, _ = conf.Check(repoModule+"/app", fset, t.files, t.info)
 	if t.pkg == nil {
 		return nil, fmt.Errorf("type check failed: %v", t.terrs)
